@@ -101,7 +101,9 @@ class G:
             hi = d.randint(0, f["w"] - 1)
             lo = d.randint(max(0, hi - 12), hi)
             e = ["ps", f["name"], hi, lo]
-            if hi == lo and d.chance(50):
+            if hi == lo and d.chance(50) and "[" not in f["name"]:
+                # f[i] on a field reached through a list index is read by the DSL as an array subscript: only the
+                # slice form f[i:i] is generated there
                 e.append("bit")
             return e
         op = d.choice(["+", "-", "&", "|", "^", "<<", ">>", "*", "/", "%"])
